@@ -120,6 +120,14 @@ def depends_on_variable(mspec, name, seen=()):
     return False
 
 
+def integralise(e):
+    if e[0] == "c":
+        return X.c(Fraction(round(X.ev(e, {}))))
+    if e[0] == "v":
+        return e
+    return [e[0]] + [integralise(a) for a in e[1:]]
+
+
 def gen_model(rng, *, min_share=0.7, allow_state_exclusion=True, **kw):
     """a random model in which at least min_share of the (period, state) pairs have an admissible choice;
     allow_state_exclusion=False: filters restrict choices only (every state keeps a passing choice)"""
@@ -165,6 +173,8 @@ def gen_model_raw(rng, *, max_periods=3, allow_stochastic=True, allow_filter=Tru
         cont = rng.random() < 0.45
         if ({"filter", "period_filter"} & force) and i == 0:
             cont = False
+        if {"all_discrete_states", "int_utility"} & force:       # every simulated row stays on the grid
+            cont = False
         if "two_stochastic" in force and i < 2:
             states.append([n, {"d": eq_size}])      # two stochastic states of EQUAL size
             continue
@@ -174,6 +184,8 @@ def gen_model_raw(rng, *, max_periods=3, allow_stochastic=True, allow_filter=Tru
         if "two_cont_choices" in force and i < 2:
             cont = True
         if "mixed_discrete_choices" in force and i < 2:
+            cont = False
+        if "int_utility" in force:
             cont = False
         choices.append([n, gen_grid(rng, cont, used)])
     if "two_cont_choices" in force and nc < 2:
@@ -202,6 +214,8 @@ def gen_model_raw(rng, *, max_periods=3, allow_stochastic=True, allow_filter=Tru
                    (allow_filter and dstates and rng.random() < 0.45))
     if want_filter and dstates:
         nf = 1 if rng.random() < (0.5 if "period_filter" in force else 0.8) else 2
+        if "two_filters" in force:
+            nf = 2
         for k in range(nf):
             fs = rng.sample(dstates, rng.randint(1, min(2, len(dstates))))
             fc = rng.sample(dchoices, rng.randint(0, min(1 if "mixed_discrete_choices" in force else 2, len(dchoices)))) if dchoices else []
@@ -243,7 +257,7 @@ def gen_model_raw(rng, *, max_periods=3, allow_stochastic=True, allow_filter=Tru
 
     # ---- auxiliary functions ------------------------------------------------------------
     aux = []
-    for k in range(rng.choice([0, 0, 1, 1, 2])):
+    for k in range(0 if "int_utility" in force else rng.choice([0, 0, 1, 1, 2])):
         pars = pick_pars()
         pool = rng.sample(allvars, rng.randint(1, min(3, len(allvars)))) + aux + (["_period"] if rng.random() < 0.2 else [])
         body = X.gen_num(rng, pool + pars, 2)
@@ -254,7 +268,7 @@ def gen_model_raw(rng, *, max_periods=3, allow_stochastic=True, allow_filter=Tru
         aux.append(name)
 
     # ---- constraints ---------------------------------------------------------------------
-    ncons = rng.choice([0, 1, 1, 2]) if "constraint" not in force else rng.choice([1, 2])
+    ncons = rng.choice([0, 1, 1, 2]) if not ({"constraint", "int_utility"} & force) else rng.choice([1, 2])
     for k in range(ncons):
         pars = pick_pars()
         cvars = [n for n, g in choices]
@@ -263,7 +277,10 @@ def gen_model_raw(rng, *, max_periods=3, allow_stochastic=True, allow_filter=Tru
             pool.append(rng.choice(aux))
         if rng.random() < 0.15:
             pool.append("_period")
-        if rng.random() < 0.5 and len(pool) >= 2:
+        if "int_utility" in force and k == 0:
+            # some states have no admissible choice at all: choice <= state - 1
+            body = ["<=", X.v(dchoices[0]), ["+", X.v(dstates[0]), X.c(-1)]]
+        elif rng.random() < 0.5 and len(pool) >= 2:
             # budget-like: x <= y + const
             body = ["<=", X.v(pool[0]), ["+", X.v(pool[1]), X.c(Fraction(rng.randint(-2, 6), 2))]]
         else:
@@ -338,7 +355,15 @@ def gen_model_raw(rng, *, max_periods=3, allow_stochastic=True, allow_filter=Tru
                set().union(*[set(f["args"]) for f in funcs if f["name"].endswith(("_constraint", "_filter"))] or [set()])]
     for x in missing:
         body = ["+", body, ["*", X.c(Fraction(rng.choice([1, 3, 5, -2]), rng.choice([1, 2]))), X.v(x)]]
-    if rng.random() < 0.3:      # written as a reduction over a stacked array (not element-wise on columns)
+    if "int_utility" in force:
+        # integer valued: discrete variables, integral constants, no parameters
+        body = X.gen_num(rng, allvars, 3)
+        for x in allvars:
+            if x not in X.names_in(body):
+                body = ["+", body, ["*", X.c(rng.choice([1, 3, -2])), X.v(x)]]
+        body = integralise(body)
+        pars = []
+    elif rng.random() < 0.3:      # written as a reduction over a stacked array (not element-wise on columns)
         body = ["asum", body, X.c(Fraction(rng.randint(0, 3), 2))]
     add("utility", sorted(X.names_in(body)), body, pars=[p for p in pars if p in X.names_in(body)])
 
